@@ -218,7 +218,7 @@ class Ctx:
             self.note("driver %s: %s" % (suite, p.stdout.strip().splitlines()[-1]))
             return p.stdout
         if p.returncode != 0:
-            raise Broken("driver %s failed rc=%d:\n%s" % (suite, p.returncode, p.stdout[-4000:]))
+            raise Broken("driver %s failed rc=%d:\n%s" % (suite, p.returncode, p.stdout if len(p.stdout) <= 4000 else p.stdout[:1500] + "\n[...]\n" + p.stdout[-2500:]))
         return p.stdout
 
     def source_dict(self):
